@@ -76,7 +76,7 @@ def run_once(ct, ctx):
     try:
         with warnings.catch_warnings():
             warnings.simplefilter('ignore')
-            ct.fn(ctx, **ct.params)
+            ct.fn(ctx, **{k: v for k, v in ct.params.items() if not k.startswith('_')})
     except dsl.ConcContext.Vacuous:
         return 'vacuous', [], None
     except Exception as e:
